@@ -13,6 +13,7 @@
 #include <cstdint>
 #include <functional>
 #include <iterator>
+#include <string>
 #include <map>
 #include <unordered_map>
 
@@ -1203,8 +1204,111 @@ static void triv_case(const std::string& name, std::size_t cap)
     }
 }
 
+// appends spelled with braces are single-element appends
+template <typename T>
+static void brace_append_case(const std::string& name)
+{
+    nitro::lang::fixed_vector<T> v(6);
+    std::vector<T> ref;
+    v.push_back({});
+    ref.push_back({});
+    v.insert({});
+    ref.push_back({});
+    v.emplace_back();
+    ref.emplace_back();
+    T one{};
+    v.push_back(one);
+    ref.push_back(one);
+    if (v.size() != ref.size())
+    {
+        viol("C07", "trivial-type:" + name + ":brace-spelled-append-is-not-a-single-element-append",
+             "size " + std::to_string(v.size()) + " expected " + std::to_string(ref.size()));
+        return;
+    }
+    for (std::size_t i = 0; i < ref.size(); ++i)
+        if (!(v[i] == ref[i]))
+            viol("C07", "trivial-type:" + name + ":brace-spelled-append-wrong-element", std::to_string(i));
+    stats["trivial-type-checks"]++;
+}
+
+// a capacity beyond 2^32: positions and indices above 2^32 are ordinary out-of-range arguments
+static void huge_case()
+{
+    const std::size_t big = (std::size_t(1) << 32) + 16;
+    nitro::lang::fixed_vector<char> v(big);
+    for (int i = 0; i < 4; ++i)
+        v.emplace_back(static_cast<char>('a' + i));
+    auto unchanged = [&] { return v.size() == 4 && v[0] == 'a' && v[1] == 'b' && v[2] == 'c' && v[3] == 'd'; };
+    for (std::size_t off : { std::size_t(0), std::size_t(1), std::size_t(3), std::size_t(4) })
+    {
+        std::size_t idx = (std::size_t(1) << 32) + off;
+        bool raised = false;
+        try
+        {
+            v.erase(v.begin() + idx);
+        }
+        catch (std::exception&)
+        {
+            raised = true;
+        }
+        if (!raised || !unchanged())
+        {
+            viol("C06", "index-beyond-2^32:erase-did-not-raise-or-changed-the-container", "erase(begin()+2^32+" + std::to_string(off) + ")");
+            return;
+        }
+        raised = false;
+        try
+        {
+            (void)v.at(idx);
+        }
+        catch (std::exception&)
+        {
+            raised = true;
+        }
+        if (!raised)
+        {
+            viol("C06", "index-beyond-2^32:at-did-not-raise", "at(2^32+" + std::to_string(off) + ")");
+            return;
+        }
+        raised = false;
+        try
+        {
+            v.emplace(v.begin() + idx, 'x');
+        }
+        catch (std::exception&)
+        {
+            raised = true;
+        }
+        if (!raised || !unchanged())
+        {
+            viol("C06", "index-beyond-2^32:emplace-did-not-raise-or-changed-the-container", "emplace(begin()+2^32+" + std::to_string(off) + ")");
+            return;
+        }
+        raised = false;
+        try
+        {
+            char src[2] = { 'y', 'z' };
+            v.insert(v.begin() + idx, src, src + 2);
+        }
+        catch (std::exception&)
+        {
+            raised = true;
+        }
+        if (!raised || !unchanged())
+        {
+            viol("C06", "index-beyond-2^32:range-insert-did-not-raise-or-changed-the-container", "");
+            return;
+        }
+    }
+    stats["huge-capacity-checks"] += 16;
+}
+
 static void triv_all()
 {
+    brace_append_case<int>("int");
+    brace_append_case<long>("long");
+    brace_append_case<double>("double");
+    brace_append_case<std::string>("std::string");
     triv_case<std::int64_t, int>("int64<-int", 5);
     triv_case<std::int64_t, short>("int64<-short", 4);
     triv_case<int, float>("int<-float", 4);
@@ -1227,6 +1331,18 @@ static int run(int argc, char** argv)
         out("ALPHABET " + std::to_string(A));
         for (std::size_t i = 0; i < ops.size(); ++i)
             out("OP " + std::to_string(i) + " " + ops[i].name);
+        return 0;
+    }
+    if (mode == "huge")
+    {
+        begin_case({ "CASE", "0" }, 120);
+        huge_case();
+        flush_found("capacity-beyond-2^32");
+        end_case();
+        std::string st = "STATS";
+        for (auto& kv : stats)
+            st += " " + kv.first + "=" + std::to_string(kv.second);
+        out(st);
         return 0;
     }
     if (mode == "triv")
